@@ -19,6 +19,22 @@ for n in $names; do
   pkg="fastrace@0.7.9"; tdir=fastrace/tests
   grep -q -- "-p fastrace-jaeger" $d/run_demo.sh 2>/dev/null && { pkg=fastrace-jaeger; tdir=fastrace-jaeger/tests; }
   grep -q -- "-p fastrace-futures" $d/run_demo.sh 2>/dev/null && { pkg=fastrace-futures; tdir=fastrace-futures/tests; }
+  grep -q -- "fastrace-opentelemetry" $d/run_demo.sh 2>/dev/null && { pkg=fastrace-opentelemetry; tdir=fastrace-opentelemetry/tests; }
+  if [ -f $d/demo.diff ] && grep -q "test-statically-disable" $d/demo.diff; then
+    # the demonstration is a change to the statically-disabled test binary, run with cargo run
+    git apply $d/demo.diff
+    t0=$(date +%s)
+    timeout 900 cargo run -q -p test-statically-disable --offline > $d/verify_clean.log 2>&1; rc_clean=$?
+    git apply $d/patch.diff || { echo "$n: patch does not apply"; continue; }
+    timeout 900 cargo run -q -p test-statically-disable --offline > $d/verify_mutant.log 2>&1; rc_mut=$?
+    git apply -R $d/demo.diff
+    timeout 1500 cargo nextest run --workspace --no-fail-fast --offline --test-threads 8 > $d/verify_suite.log 2>&1; rc_suite=$?
+    passed=$(grep -o "[0-9]* passed" $d/verify_suite.log | tail -1)
+    echo "{\"demo_on_clean_tree_rc\": $rc_clean, \"demo_with_change_rc\": $rc_mut, \"suite_with_change_rc\": $rc_suite, \"suite\": \"$passed\", \"seconds\": $(( $(date +%s) - t0 ))}" > $d/verify.json
+    echo "$n: clean=$rc_clean mutant=$rc_mut suite=$rc_suite ($passed)"
+    tail -c 1500 $d/verify_mutant.log > $d/verify_mutant.tail; rm -f $d/verify_mutant.log $d/verify_clean.log; tail -5 $d/verify_suite.log > $d/verify_suite.tail; rm -f $d/verify_suite.log
+    continue
+  fi
   mkdir -p $tdir
   for f in $demos; do cp $f $tdir/; done
   [ -f $d/demo_cargo.diff ] && git apply $d/demo_cargo.diff
